@@ -1,7 +1,7 @@
 """C17 - Concurrent[...] handlers select exactly the documented sets of failures.
 
 Correspondence (model = coq/theories/ConcMatch.v, evaluated with vm_compute on generated case files):
-  * `table`   : exhaustive (both tiers).  Hierarchy A; B(A); C(B); D; E(D); F created here.  Raised failures:
+  * `table`   : exhaustive (both tiers; the thorough tier adds the child multisets of size 4).  Hierarchy A; B(A); C(B); D; E(D); F created here.  Raised failures:
                 every multiset of size 1..3 over 9 child exceptions (6 plain + Concurrent(A()),
                 Concurrent(B(), D()), Concurrent(Concurrent(C()))) plus the 6 plain exceptions themselves.
                 Handlers: every set of size 0..3 over 11 listed types (6 plain + Concurrent, Concurrent[A],
@@ -297,9 +297,9 @@ def present(rng, ms, inc):
     return d
 
 
-def table_raised():
+def table_raised(maxsize=3):
     out = [[CHILD_ALPHABET[i] for i in combo]
-           for k in (1, 2, 3) for combo in itertools.combinations_with_replacement(range(len(CHILD_ALPHABET)), k)]
+           for k in range(1, maxsize + 1) for combo in itertools.combinations_with_replacement(range(len(CHILD_ALPHABET)), k)]
     return out + list(range(6))
 
 
@@ -405,7 +405,7 @@ def coq_results(ctx, paths, kinds):
 
 
 def run_table(ctx, w, d10):
-    raised = [(t, build(ctx, w, 'raised', t)) for t in table_raised()]
+    raised = [(t, build(ctx, w, 'raised', t)) for t in table_raised(ctx.n(3, 4))]
     handlers = [(h, build(ctx, w, 'handler', h)) for h in table_handlers(ctx.rng)]
     raised, excs = [t for t, e in raised if e is not None], [e for t, e in raised if e is not None]
     handlers, Hs = [h for h, H in handlers if H is not None], [H for h, H in handlers if H is not None]
@@ -630,9 +630,9 @@ def run(ctx):
     raised, excs, handlers, Hs = run_table(ctx, w, d10)
     run_identity(ctx, w, raised, excs, handlers, Hs)
     trees = [t for t in raised if not isinstance(t, int)]
-    trees += [rand_tree(ctx.rng, ctx.rng.choice([2, 3, 4])) for _ in range(ctx.n(400, 4000))]
+    trees += [rand_tree(ctx.rng, ctx.rng.choice([2, 3, 4])) for _ in range(ctx.n(400, 12000))]
     run_flatten(ctx, w, trees)
-    run_deep(ctx, w, ctx.n(2000, 24000), d10)
+    run_deep(ctx, w, ctx.n(2000, 80000), d10)
     report_d10(ctx, w, d10)
 
 
